@@ -112,6 +112,11 @@ def run(facts, R):
                                 reads.append((x, j, e["f"]))
         # (a read after the loop - the predicate run once more after the final timed-out wake-up - is fresh, not hoisted)
         outside = [r for r in reads if r[0] not in cyc and i in b.reachable((r[0],))]
+        # a field that nothing in the crate stores to or borrows mutably after construction cannot go stale: hoisting its read is sound
+        frozen = {f_ for f_ in {r[2] for r in outside} if not field_writes(facts, INNER, f_)}
+        if frozen:
+            R.note("%s reads %s before its waiting loop; no store or mutable borrow of these fields exists in the crate" % (fn, sorted(frozen)))
+        outside = [r for r in outside if r[2] not in frozen]
         R.check(not outside, "wait-in-loop", fn, "reads-inside-loop",
                 "predicate state %s is read outside the waiting loop (stale after a wake-up)" % sorted({r[2] for r in outside}),
                 t.get("span"), "%d reads of TransferControlInner fields, all inside the waiting cycle" % len(reads))
